@@ -59,7 +59,7 @@ Map1_6 == << Ra("pushad", <<>>, OS), Ra("popad", <<>>, OS), Rw("bound", <<"Gv","
              Rw("push", <<"Iz">>), Rw("imul", <<"Gv","Ev","Iz">>), Ra("push", <<"Ibs">>, OS), Rw("imul", <<"Gv","Ev","Ibs">>),
              Ra("insb", <<"Yb","DX">>, {"str","as"}), Ra("insd", <<"Yz","DX">>, {"str","as","os"}),
              Ra("outsb", <<"DX","Xb">>, {"str","as","segsrc"}), Ra("outsd", <<"DX","Xz">>, {"str","as","os","segsrc"}) >>
-Map1_7 == [i \in 1..16 |-> Rw("j" \o CC[i], <<"Jb">>)]
+Map1_7 == [i \in 1..16 |-> Ra("j" \o CC[i], <<"Jb">>, OS)]       \* operand size 16 truncates EIP: 66 is not superfluous
 Map1_8 == << Gp("1", <<"Eb","Ib">>), Gp("1", <<"Ev","Iz">>), Gp("1", <<"Eb","Ib">>), Gp("1", <<"Ev","Ibs">>),
              Rw("test", <<"Eb","Gb">>), Rw("test", <<"Ev","Gv">>), Ra("xchg", <<"Eb","Gb">>, L), Ra("xchg", <<"Ev","Gv">>, L),
              Rw("mov", <<"Eb","Gb">>), Rw("mov", <<"Ev","Gv">>), Rw("mov", <<"Gb","Eb">>), Rw("mov", <<"Gv","Ev">>),
@@ -83,9 +83,9 @@ Map1_C == << Gp("2", <<"Eb","Ib">>), Gp("2", <<"Ev","Ib">>), Ra("ret", <<"Iw">>,
 Map1_D == << Gp("2", <<"Eb","1">>), Gp("2", <<"Ev","1">>), Gp("2", <<"Eb","CL">>), Gp("2", <<"Ev","CL">>),
              Rw("aam", <<"Ib">>), Rw("aad", <<"Ib">>), NONE, Ra("xlat", <<>>, {"as","segsrc"}) >>
           \o Rep8(Spc("ESC"))
-Map1_E == << Ra("loopne", <<"Jb">>, {"as"}), Ra("loope", <<"Jb">>, {"as"}), Ra("loop", <<"Jb">>, {"as"}), Ra("jecxz", <<"Jb">>, {"as"}),
+Map1_E == << Ra("loopne", <<"Jb">>, {"as","os"}), Ra("loope", <<"Jb">>, {"as","os"}), Ra("loop", <<"Jb">>, {"as","os"}), Ra("jecxz", <<"Jb">>, {"as","os"}),
              Rw("in", <<"AL","Ib">>), Rw("in", <<"eAX","Ib">>), Rw("out", <<"Ib","AL">>), Rw("out", <<"Ib","eAX">>),
-             Rw("call", <<"Jz">>), Rw("jmp", <<"Jz">>), Rw("jmpf", <<"Ap">>), Rw("jmp", <<"Jb">>),
+             Rw("call", <<"Jz">>), Rw("jmp", <<"Jz">>), Rw("jmpf", <<"Ap">>), Ra("jmp", <<"Jb">>, OS),
              Rw("in", <<"AL","DX">>), Rw("in", <<"eAX","DX">>), Rw("out", <<"DX","AL">>), Rw("out", <<"DX","eAX">>) >>
 Map1_F == << Spc("PFX"), Rw("int1", <<>>), Spc("PFX"), Spc("PFX"),
              Rw("hlt", <<>>), Rw("cmc", <<>>), Gp("3b", <<"Eb">>), Gp("3v", <<"Ev">>),
